@@ -1060,7 +1060,7 @@ impl RoomAuthorisations {
 
     pub const LOAD_QUERY: &'static str = "
         query LOAD_ROOMS{
-            sys.Room {
+            sys.Room (nullable(admin, authorisations)) {
                 id
                 mdate
                 room_id
